@@ -449,9 +449,12 @@ fn do_from_expr(
     }
 }
 
+fn dot_escape(s: &str) -> String {
+    s.replace('\\', "\\\\").replace('"', "\\\"")
+}
+
 pub(crate) fn make_dot_string_constant(s: &str) -> String {
-    let escaped = s.replace('\\', "\\\\").replace('"', "\\\"");
-    format!(r#""{escaped}""#)
+    format!(r#""{}""#, dot_escape(s))
 }
 
 fn do_to_dot<W: Write>(
@@ -531,15 +534,18 @@ fn do_to_dot<W: Write>(
             else {
                 unreachable!();
             };
+            // Literals and descriptions may hold quotes and backslashes themselves.
+            let literal = dot_escape(&format!("\"{literal}\""));
             if let Some(description) = description {
+                let description = dot_escape(&format!("\"{description}\""));
                 writeln!(
                     output,
-                    r#"{indentation}{node_dot_id}[label="{pos}: \"{literal}\"\n\"{description}\""];"#
+                    r#"{indentation}{node_dot_id}[label="{pos}: {literal}\n{description}"];"#
                 )?;
             } else {
                 writeln!(
                     output,
-                    r#"{indentation}{node_dot_id}[label="{pos}: \"{literal}\""];"#
+                    r#"{indentation}{node_dot_id}[label="{pos}: {literal}"];"#
                 )?;
             }
             if let Some(parent_dot_id) = parent_dot_id {
@@ -553,7 +559,8 @@ fn do_to_dot<W: Write>(
             };
             writeln!(
                 output,
-                r#"{indentation}{node_dot_id}[label="{pos}: <{nonterm}>"];"#
+                r#"{indentation}{node_dot_id}[label={}];"#,
+                make_dot_string_constant(&format!("{pos}: <{nonterm}>"))
             )?;
             if let Some(parent_dot_id) = parent_dot_id {
                 writeln!(output, r#"{indentation}{parent_dot_id} -> {node_dot_id};"#,)?;
